@@ -44,7 +44,49 @@ func genOverlap(r *Rand, i int) Input {
 	add := func(kind string, e uint64) { steps = append(steps, genReq(r, chain, pool, kind, e)) }
 	n := r.Range(2, 4)
 	shape := ""
-	switch k := r.Intn(10); {
+	switch k := r.Intn(13); {
+	case k >= 10:
+		// the same batch duty for ANOTHER slot (another message), for the same accounts, made while
+		// an account call of the first one waits: what a per-service (rather than per-request) buffer
+		// of roots, signing data or results would hand to the accounts of the first request.  Often
+		// all accounts are of one kind (a wallet, or the plain accounts of a remote signer): no split.
+		shape = "overlap:same-batch-kind-other-slot"
+		kind := []string{"slotsel", "syncroots", "slotsel", "syncsel", "slotsel", "attestations", "contributions"}[(i+r.Intn(7))%7]
+		if r.Chance(2, 3) {
+			prof := []string{"wallet", "dirk", "wallet", "dirk-dist", "all"}[r.Intn(5)]
+			pool = make([]Acc, r.Range(2, 6))
+			for j := range pool {
+				pool[j] = profiles[prof]
+				pool[j].Key = uint64(j + 1)
+			}
+			poolStyle = "pool:one-profile-" + prof
+			in.Pool = pool
+		}
+		var slots []uint64
+		for j := 0; j < n; j++ {
+			q := genReq(r, chain, pool, kind, window())
+			for _, s := range slots {
+				if q.Slot == s {
+					if q.Slot > 1<<62 {
+						q.Slot -= chain.SPE + 1
+					} else {
+						q.Slot += chain.SPE + 1
+					}
+					q.Epoch = q.Slot / chain.SPE
+					q.TargetEpoch = q.Epoch
+					for c := range q.Contribs {
+						q.Contribs[c].Slot = q.Slot
+					}
+				}
+			}
+			slots = append(slots, q.Slot)
+			// the same accounts (every one once), so that whatever the first request was given is
+			// wholly overwritten by the later ones
+			q.Batch = r.Perm(len(pool))
+			q.Idxs, q.Contribs = nil, nil
+			genContentFields(r, &q, chain, q.Epoch)
+			steps = append(steps, q)
+		}
 	case k < 3: // the single-signature requests of different duties, as the duty goroutines of vouch make them
 		shape = "overlap:single-signature-kinds"
 		for j := 0; j < n; j++ {
@@ -88,6 +130,13 @@ func genOverlap(r *Rand, i int) Input {
 		}
 		if !isSingle(steps[j].Kind) && r.Bool() {
 			steps[j].ParkAt = r.Intn(3)
+		}
+		if shape == "overlap:same-batch-kind-other-slot" && j == 0 {
+			// the first one always waits, at an account call that is not the last of a batch signed for one by one
+			steps[j].Park, steps[j].ParkAt = "before", 0
+			if r.Chance(1, 3) && len(steps[j].Batch) > 2 {
+				steps[j].ParkAt = 1
+			}
 		}
 	}
 	if r.Bool() {
